@@ -439,10 +439,23 @@ def check_moves(c, scr):
         c.check(len(ks) == 1 and callee_last(ks[0]) == tgt, f, ks[0] if ks else None, '%s delegates to %s' % (name, tgt), kind='ast', tag='alias:' + name)
 
 
+def argvals(args, f):
+    """argument values as linear forms over the screen's fields, with locals that merely hold a field (`row = self.cur_r`) written out"""
+    out = []
+    for e in args:
+        l_ = lin(e, f)
+        out.append(repr(l_) if l_ is not None else norm(e))
+    return out
+
+
+def argvals_of(texts, f):
+    return argvals([ast.parse(t, mode='eval').body for t in texts], f)
+
+
 def check_compose(c, scr):
     f = scr.methods['cr']
     ks = [k for k in calls_in(f.node)]
-    c.check(len(ks) == 1 and callee_last(ks[0]) == 'cursor_home' and [norm(a) for a in ks[0].args] == ['self.cur_r', '1'], f, ks[0] if ks else None,
+    c.check(len(ks) == 1 and callee_last(ks[0]) == 'cursor_home' and argvals(ks[0].args, f) == argvals_of(['self.cur_r', '1'], f), f, ks[0] if ks else None,
             'cr() goes to column 1 of the current row', kind='ast', tag='cr')
     f = scr.methods['lf']
     g = f.cfg
@@ -469,7 +482,12 @@ def check_compose(c, scr):
         g = f.cfg
         k1 = cfg_nodes_with_call(f, lambda k: callee_last(k) == first)
         k2 = cfg_nodes_with_call(f, lambda k: callee_last(k) == 'fill_region')
-        ok = len(k1) == 1 and len(k2) == 1 and g.dominated_by(g.exit, {k1[0][0]})[0] and sorted(norm(a) for a in k2[0][1].args[:4]) == sorted(args)
+        def val(e):
+            # the value as a linear form over the screen's fields, with locals that merely hold a field (`row = self.cur_r`) written out
+            l_ = lin(e, f)
+            return repr(l_) if l_ is not None else norm(e)
+        want_ = sorted(val(ast.parse(a_, mode='eval').body) for a_ in args)
+        ok = len(k1) == 1 and len(k2) == 1 and g.dominated_by(g.exit, {k1[0][0]})[0] and sorted(val(a) for a in k2[0][1].args[:4]) == want_
         c.check(ok, f, k2[0][1] if k2 else None, '%s() = %s() on the current line + the whole lines %s it' % (name, first, 'below' if name == 'erase_down' else 'above'),
                 witness=norm(k2[0][1]) if k2 else 'missing', kind='ast', tag='compose-' + name)
     f = scr.methods['crlf']
@@ -477,19 +495,19 @@ def check_compose(c, scr):
     c.check(names == ['cr', 'lf'], f, None, 'crlf() = cr() then lf()', witness=str(names), kind='ast', tag='crlf')
     f = scr.methods['put']
     ks = [k for k in calls_in(f.node) if callee_last(k) == 'put_abs']
-    c.check(len(ks) == 1 and [norm(a) for a in ks[0].args] == ['self.cur_r', 'self.cur_c', 'ch'], f, ks[0] if ks else None, 'put() writes at the cursor', kind='ast', tag='put')
+    c.check(len(ks) == 1 and argvals(ks[0].args, f) == argvals_of(['self.cur_r', 'self.cur_c', 'ch'], f), f, ks[0] if ks else None, 'put() writes at the cursor', kind='ast', tag='put')
     f = scr.methods['insert']
     ks = [k for k in calls_in(f.node) if callee_last(k) == 'insert_abs']
-    c.check(len(ks) == 1 and [norm(a) for a in ks[0].args] == ['self.cur_r', 'self.cur_c', 'ch'], f, ks[0] if ks else None, 'insert() inserts at the cursor', kind='ast', tag='insert')
+    c.check(len(ks) == 1 and argvals(ks[0].args, f) == argvals_of(['self.cur_r', 'self.cur_c', 'ch'], f), f, ks[0] if ks else None, 'insert() inserts at the cursor', kind='ast', tag='insert')
     f = scr.methods['fill']
     ks = [k for k in calls_in(f.node) if callee_last(k) == 'fill_region']
-    c.check(len(ks) == 1 and [norm(a) for a in ks[0].args] == ['1', '1', 'self.rows', 'self.cols', 'ch'], f, ks[0] if ks else None, 'fill() covers the whole screen', kind='ast', tag='fill')
+    c.check(len(ks) == 1 and argvals(ks[0].args, f) == argvals_of(['1', '1', 'self.rows', 'self.cols', 'ch'], f), f, ks[0] if ks else None, 'fill() covers the whole screen', kind='ast', tag='fill')
     for name, want in (('erase_end_of_line', ['self.cur_r', 'self.cur_c', 'self.cur_r', 'self.cols']),
                        ('erase_start_of_line', ['self.cur_r', '1', 'self.cur_r', 'self.cur_c']),
                        ('erase_line', ['self.cur_r', '1', 'self.cur_r', 'self.cols'])):
         f = scr.methods[name]
         ks = [k for k in calls_in(f.node) if callee_last(k) == 'fill_region']
-        c.check(len(ks) == 1 and [norm(a) for a in ks[0].args] == want, f, ks[0] if ks else None, '%s() blanks exactly %s' % (name, want), witness=norm(ks[0]) if ks else '', kind='ast', tag=name)
+        c.check(len(ks) == 1 and argvals(ks[0].args, f) == argvals_of(want, f), f, ks[0] if ks else None, '%s() blanks exactly %s' % (name, want), witness=norm(ks[0]) if ks else '', kind='ast', tag=name)
 
 
 MUTANTS = [
